@@ -170,6 +170,7 @@ class Engine:
         self.inlined = set()
         self.perm_registry = []
         self.sort_registry = []
+        self.filter_registry = []
         self.rules_used = set()
         self.concrete = False  # differential self-test mode: concrete inputs, loops unrolled, callees inlined
         self.definitional = {}
@@ -270,6 +271,8 @@ class Engine:
                 self.model_vars[name] = ("bool", v.t)
             elif isinstance(v, SeqV) and "fun" in v.meta:
                 self.model_vars[name] = ("seq", v.meta["len"], v.meta["fun"])
+            elif isinstance(v, TupV) and v.items and all(isinstance(x, IntV) for x in v.items):
+                self.model_vars[name] = ("tuple", [x.t for x in v.items])
             elif isinstance(v, TupV) and all(isinstance(x, SeqV) and "fun" in x.meta for x in v.items):
                 for i_, x in enumerate(v.items):
                     self.model_vars[f"{name}{i_}"] = ("seq", x.meta["len"], x.meta["fun"])
@@ -376,7 +379,7 @@ class Engine:
             self.emit("goal", st, conj, f".{j}")
         return self.obls[start:]
 
-    def emit(self, kind, st, goal, tag=""):
+    def emit(self, kind, st, goal, tag="", inherited=()):
         gb = B(goal)
         if not self.concrete and z3.is_eq(gb) and z3.is_bool(gb.arg(0)) and (_has_quant(gb.arg(0)) or _has_quant(gb.arg(1))):
             # an equivalence between quantified formulas is proved as two implications
@@ -394,18 +397,35 @@ class Engine:
         if n:
             name = f"{name}~{n}"
         hyps, goal2, consts = skolemize(list(st.pc), B(goal))
+        consts = list(inherited) + consts
+        if z3.is_eq(goal2) and z3.is_bool(goal2.arg(0)) and (_has_quant(goal2.arg(0)) or _has_quant(goal2.arg(1))) and not tag.endswith(("=>", "<=")):
+            # equivalence under the skolem constants: two implications, each opened further
+            base = State(st.env, hyps)
+            self.emit(kind, base, z3.Implies(goal2.arg(0), goal2.arg(1)), tag + "=>", consts)
+            self.emit(kind, base, z3.Implies(goal2.arg(1), goal2.arg(0)), tag + "<=", consts)
+            return
+        if z3.is_and(goal2) and goal2.num_args() > 1 and tag.count("/") < 3:
+            base = State(st.env, hyps)
+            for j_, conj_ in enumerate(goal2.children()):
+                self.emit(kind, base, conj_, f"{tag}/{j_}", consts)
+            return
         hyps.append(divmod_axiom())
         hyps.extend(self.global_axioms)
         # Seed the e-graph: E-matching can only instantiate the permutation axioms
         # (patterns F(i) / G(v)) at terms that exist.  mark is a fresh uninterpreted predicate, so
         # asserting mark(t) constrains nothing (conservative) but makes the terms F(c), G(c) available.
-        if consts and (self.perm_registry or self.sort_registry):
+        if consts and (self.perm_registry or self.sort_registry or self.filter_registry):
             mark = fresh_fun("mark", z3.IntSort(), z3.BoolSort())
             for cst in consts:
                 for F_, G_, n_ in self.perm_registry:
                     for term in (cst, n_ - 1 - cst):
                         hyps.append(mark(F_(term)))
                         hyps.append(mark(G_(term)))
+                for cnt_ in self.filter_registry:  # prefix counts of filters at index-like terms
+                    hyps.append(mark(cnt_(cst)))
+                    for F_, G_, n_ in self.perm_registry[:3]:
+                        hyps.append(mark(cnt_(F_(cst))))
+                        hyps.append(mark(cnt_(G_(cst))))
                 for F_, G_, n_ in self.sort_registry:  # sigma / tau of sorted(...): neighbours too (off-by-one shifts)
                     for term in (cst, cst - 1, cst + 1):
                         hyps.append(mark(F_(term)))
@@ -1422,6 +1442,7 @@ class Engine:
             z3.ForAll([j], z3.Implies(z3.And(j >= 0, j < cnt(n)), z3.And(sel(j) >= 0, sel(j) < n, pred(sel(j)), cnt(sel(j)) == j)), patterns=[sel(j)]),
             z3.ForAll([i, j], z3.Implies(z3.And(i >= 0, i < j, j < cnt(n)), sel(i) < sel(j)), patterns=[z3.MultiPattern(sel(i), sel(j))]),
         ]
+        self.filter_registry.append(cnt)
         for a in ax:
             st.assume(a)
             self.definitional[a.get_id()] = (cnt.name(), sel.name())
